@@ -199,6 +199,18 @@ Definition compact_ids (old new : list tracker) : list tracker :=
                  else set_rid tr None) new.
 Definition count_rebuilding (trs : list tracker) : nat := length (filter is_rebuilding trs).
 
+(* When events finish, the demand blocks of the events that keep rebuilding are carried
+   over to their new positions.  [kept_ids E l]: the (old) ids still held by a rebuilding
+   tracker of [l], ascending; the block with new id k comes from old id [nth k kept 0]. *)
+Definition holds_id (l : list tracker) (i : nat) : bool :=
+  existsb (fun tr => is_rebuilding tr && match rid tr with Some k => Nat.eqb k i | None => false end) l.
+Definition kept_ids (E : nat) (l : list tracker) : list nat := filter (holds_id l) (seq 0 E).
+(* column j of the rebuilding part of the new matrix (E' events) read from the old one (E events) *)
+Definition moved_cell (P : params) (E E' : nat) (kept : list nat) (d : mat) (f j : nat) : Qc :=
+  let N := NN P in let F := FF P in
+  if Nat.ltb j (N * E') then get d f (N + F + N * nth (j / N) kept 0%nat + j mod N)
+  else get d f (N + F + N * E + F * nth ((j - N * E') / F) kept 0%nat + (j - N * E') mod F).
+
 (* recovery *)
 Definition round_v (prec : Z) (v : vec) : option vec :=
   let v' := map (round_dec prec) v in if all_zero_v v' then None else Some v'.
